@@ -53,7 +53,7 @@ def stats(cases, res):
     return hist, len(seen)
 
 
-def replay_case(obj, oracle):
+def replay_case(obj, oracle, require="Corr.RunClient"):
     class C:
         pass
     ctx = C()
@@ -63,7 +63,7 @@ def replay_case(obj, oracle):
     srvprops._init_worker()
     res = clicase.run_case(case, ctx.work + "/r")
     g = clicase.case_to_gallina(case, res)
-    failing = srvprops.coq_eval(ctx, "replay", [g], f="corr_ccase", g=oracle, require="Corr.RunClient",
+    failing = srvprops.coq_eval(ctx, "replay", [g], f="corr_ccase", g=oracle, require=require,
                                 typ="ccase", checker="check_ccases")
     c_ok, o_ok = failing.get(0, (True, True))
     print(f"replay: correspondence={'ok' if c_ok else 'FAILS'} oracle({oracle})={'ok' if o_ok else 'FAILS'}")
@@ -82,7 +82,7 @@ def collect(cases, res, failing, what, sig_fn=None, corr_name="corr_client"):
     return violations, corr
 
 
-def sub_oracles(ctx, res, failing, oracles, name):
+def sub_oracles(ctx, res, failing, oracles, name, require="Corr.RunClient"):
     """evaluate the named sub-oracles on the failing cases only (one parallel coqc pass);
     returns {case index: {oracle: bool}}"""
     import os
@@ -92,7 +92,7 @@ def sub_oracles(ctx, res, failing, oracles, name):
         return out
     paths, bases = [], []
     for si, chunk in enumerate(common.chunks(list(enumerate(idx)), 4)):
-        body = ("From Hermes Require Import Corr.RunClient.\n"
+        body = (f"From Hermes Require Import {require}.\n"
                 "Definition cases : list ccase := [\n" + ";\n".join(res[i][1] for _, i in chunk) + "\n].\n"
                 f"Eval vm_compute in (check_bits [{'; '.join(oracles)}] cases).\n")
         p = os.path.join(ctx.work, f"cases_{name}_{si}.v")
